@@ -1,6 +1,7 @@
 import SeqVerif.Base.Proto
 import SeqVerif.Model.WritePath
 import SeqVerif.Model.WPPlain
+import SeqVerif.Model.FileWriter
 /-!
 Driver for C01.  Requests:
   `wp.run <fix 0|1> <ev;ev;...>`   ev = `B:<docs hex>:<meta hex>` | `T:<docs hex>:<meta hex>:<d|m><k>` | `R`
@@ -10,6 +11,9 @@ Driver for C01.  Requests:
   `replay <meta file hex>`
       -> `ok docsPos=<n> metaPos=<n> entries=<pos>:<ext1>:<len>,...` | `panic`
   `rd <file hex> <offset>`      (ReadDocBlockPayload) -> `ok <hex>` | `err` | `panic`
+  `fw.check <start offset> <labels>`  labels: r<off>:<len> w<off>:<0|1> q<off>:<size> n<off> k t<n> b e<0|1> x<off>:<0|1>
+      -> `ok path rets=<n> syncs=<n> end=<offset>` | `err step <i>`   (is the logged trace a path of SV.FWr ?)
+  `index.k <fix> <events> <ids> <tokens>`  -> `ok blocks=<sorted offsets> fetch=.. search=..` (several index workers)
   `index <fix 0|1> <events> <mid.rid;...> <token hex;...>`   (blocks packed without compression)
       -> `ok blocks=<offsets> pos=<block>.<offset>|-;... fetch=<hex>|none;... search=<mid.rid,...>;...` | `panic`
 Block bytes are decoded to the model's `Blk` and must re-encode to the same bytes (else `bad-op`).
@@ -51,8 +55,52 @@ def idLe (a b : DocID) : Bool := a.1 < b.1 || (a.1 == b.1 && a.2 ≤ b.2)
 def fmtID (i : DocID) : String := s!"{i.1}.{i.2}"
 def fmtIDs (l : List DocID) : String := fmtList fmtID (l.mergeSort idLe).eraseDups
 
+def parseLbl (s : String) : Option FWr.Lbl :=
+  let two (r : String) : Option (Nat × Nat) :=
+    match r.splitOn ":" with
+    | [a, b] => do pure ((← a.toNat?), (← b.toNat?))
+    | _ => none
+  match s.toList with
+  | ['k'] => some .wake
+  | ['b'] => some .syncBegin
+  | 'r' :: r => (two (String.ofList r)).map fun p => .reserve p.1 p.2
+  | 'w' :: r => (two (String.ofList r)).map fun p => .written p.1 (p.2 != 0)
+  | 'q' :: r => (two (String.ofList r)).map fun p => .enqueue p.1 p.2
+  | 'x' :: r => (two (String.ofList r)).map fun p => .ret p.1 (p.2 != 0)
+  | 'n' :: r => (String.ofList r).toNat?.map .notify
+  | 't' :: r => (String.ofList r).toNat?.map .take
+  | 'e' :: r => (String.ofList r).toNat?.map fun v => .syncEnd (v != 0)
+  | _ => none
+
 def step (line : String) : String :=
   match fields line with
+  | ["fw.check", start, lbls] =>
+    match start.toNat?, (splitList lbls).mapM parseLbl with
+    | some start, some tr =>
+      match FWr.firstBad (FWr.init start) tr 0 with
+      | some i => s!"err step {i}"
+      | none =>
+        match FWr.exec (FWr.init start) tr with
+        | some st =>
+          let rets := (tr.filter fun l => match l with | .ret _ _ => true | _ => false).length
+          let syncs := (tr.filter fun l => match l with | .syncEnd _ => true | _ => false).length
+          s!"ok path rets={rets} syncs={syncs} end={st.offset}"
+        | none => "err exec"
+    | _, _ => "bad-op"
+  | ["index.k", fx, evs, ids, toks] =>
+    -- several index workers: block numbering is a permutation; only what fetch and search serve is compared
+    match bool? fx, parseHist evs, (splitList ids ";").mapM parseID, (splitList toks ";").mapM hex? with
+    | some fx, some h, some ids, some toks =>
+      let st := run fx init h
+      if st.panicked then "panic"
+      else
+        let ix := buildIndex plainCodec st.idx
+        let fet := fmtList (fun i => match fetch plainCodec st.docs ix i with
+          | some b => fmtHex b
+          | none => "none") ids ";"
+        let sr := fmtList (fun t => fmtIDs (search ix t)) toks ";"
+        s!"ok blocks={fmtNats (ix.blocks.mergeSort (· ≤ ·))} fetch={fet} search={sr}"
+    | _, _, _, _ => "bad-op"
   | ["index", fx, evs, ids, toks] =>
     match bool? fx, parseHist evs, (splitList ids ";").mapM parseID, (splitList toks ";").mapM hex? with
     | some fx, some h, some ids, some toks =>
